@@ -35,11 +35,11 @@ def run(ctx):
     ctx.floor("C27-a", len(learner_fns), 20, "methods of LearnerState")
     bad_reach = []
     for b in learner_fns:
-        r = reaches(F, b.id, r"(ElectionCore::broadcast_vote_requests|Transport::send_vote_requests|RaftRoleState::increase_current_term|ElectionCore::handle_vote_request)$", ctx.depth)
+        r = reaches(F, b.id, r"(ElectionCore::broadcast_vote_requests|Transport::send_vote_requests|ElectionCore::handle_vote_request|ElectionCore::check_vote_request_is_legal)$", ctx.depth)
         if r:
             bad_reach.append((fkey(b), [fkey(x) for x in r[1]]))
     ctx.check("C27-a", "LearnerState#no-election-machinery", not bad_reach,
-              "no LearnerState method reaches broadcast_vote_requests / send_vote_requests / increase_current_term / handle_vote_request",
+              "no LearnerState method reaches broadcast_vote_requests / send_vote_requests / handle_vote_request",
               "a LearnerState method reaches election machinery (a learner could campaign or grant a vote): %s" % bad_reach[:3])
     evs = [(b, bi, st) for (b, bi, si, st) in all_agg_sites(F, "InternalEvent", None, crates=("d_engine_core",))
            if is_ty(F, F.root_of[b.id], "learner_state::LearnerState") and st["rv"]["v"] in ("BecomeCandidate", "BecomeLeader")]
@@ -53,12 +53,6 @@ def run(ctx):
         only_err = len(rets) >= 1 and all(x[2]["rv"]["k"] == "agg" and x[2]["rv"].get("v") == "Err" for x in rets)
         ctx.check("C27-a", "%s#never-Ok" % fkey(f), only_err, "returns Err on every path",
                   "LearnerState::%s can return something other than Err: a learner can start an election" % name, "%s:%s" % (f.file, f.line))
-    tk = ctx.anchor(F.method, "LearnerState", "tick")
-    if tk:
-        mb = F.main_body(tk)
-        ctx.check("C27-a", "%s#no-effects" % fkey(tk), not list(mb.calls()), "learner tick makes no call (no election timer)",
-                  "LearnerState::tick now performs calls %s; re-inspect that it cannot start an election" % [strip_generics(callee_key(t) or "?").split("::")[-1] for _b, t in mb.calls()][:5],
-                  "%s:%s" % (mb.file, mb.line))
 
     # ---------------------------------------------------------------- C27-b quorum vectors exclude learners
     sites = [x for x in F.callers_of(lambda k: strip_generics(k).endswith("RaftLog::calculate_majority_matched_index"))
@@ -83,46 +77,38 @@ def run(ctx):
         conds = edge_conditions(mb)
 
         def voter_true(c):
-            if c.truth is not True or c.kind != "call" or not re.search(r"Iterator>?::any$", strip_generics(c.callee or "")):
+            if c.truth is not True or c.kind != "call" or not re.search(r"iterator::Iterator>?::any$", c.callee or ""):
                 return False
             cs = XSlice(F, mb)
             for a in c.call["args"]:
                 cs.operand(a)
             return cs.has_field("ClusterMetadata", "replication_targets") and excludes_learners(F, cs.closures())[0]
 
-        def success_true(c):
-            return c.truth is True and cond_slice(F, c).has_field("PeerUpdate", "success")
-        gated = calls_matching(mb, r"(LeaderState::calculate_new_commit_index|RaftLog::calculate_majority_matched_index|LeaderState::update_lease_timestamp)$")
-        ctx.floor("C27-b", len(gated), 3, "commit recomputation / quorum test / lease renewal in handle_append_result")
-        seen = {}
-        for (bi, t) in gated:
-            nm = strip_generics(callee_key(t)).split("::")[-1]
-            k = seen.get(nm, 0)
-            seen[nm] = k + 1
+        gated = calls_matching(mb, r"LeaderState::update_lease_timestamp$")
+        ctx.floor("C27-b", len(gated), 1, "lease renewal in handle_append_result")
+        for k, (bi, t) in enumerate(gated):
             ok1, w1, _ = guarded_by(mb, bi, voter_true, conds)
-            ok2, w2, _ = guarded_by(mb, bi, success_true, conds)
-            ctx.check("C27-b", "%s#%s[%d]#is_voter-gate" % (fkey(har), nm, k), ok1,
-                      "reached only when the ACKing peer is a replication target with role != Learner",
-                      "%s is reachable after an ACK from a peer that did not pass the `role != Learner` test: a learner's ACK triggers commit/lease work" % nm,
+            ctx.check("C27-b", "%s#update_lease_timestamp[%d]#is_voter-gate" % (fkey(har), k), ok1,
+                      "lease renewed only when the ACKing peer is a replication target with role != Learner",
+                      "the lease is renewed after an ACK from a peer that did not pass the `role != Learner` test.  History: voters B,C are idle at match == commit, "
+                      "the leader is partitioned from B,C but still reaches learner D; every heartbeat ACK from D re-evaluates the (unchanged) voter match indexes, finds "
+                      "'quorum confirmed' and extends the lease from the last send time while B,C elect a new leader: a learner counted toward the lease quorum",
                       loc(mb, bi), w1 and bpath(mb, w1))
-            ctx.check("C27-b", "%s#%s[%d]#success-gate" % (fkey(har), nm, k), ok2,
-                      "reached only under PeerUpdate.success", "%s is reachable when PeerUpdate.success is false (a rejected append counts as an ACK)" % nm,
-                      loc(mb, bi), w2 and bpath(mb, w2))
 
     # ---------------------------------------------------------------- C27-c promotion only of caught-up, promotable learners
-    bp = all_agg_sites(F, "common::BatchPromote", None, crates=("d_engine_core", "d_engine_server"))
-    ctx.floor("C27-c", len(bp), 1, "BatchPromote constructions")
-    for (b, bi, si, st) in bp:
+    ch = [x for x in all_agg_sites(F, "membership_change::Change", None, crates=("d_engine_core", "d_engine_server"))]
+    ctx.floor("C27-c", len(ch), 3, "membership_change::Change constructions")
+    prom = [x for x in ch if x[3]["rv"]["v"] in ("Promote", "BatchPromote")]
+    ctx.floor("C27-c", len(prom), 1, "Change::{Promote,BatchPromote} constructions")
+    for (b, bi, si, st) in prom:
         root = F.root_of[b.id]
-        ctx.check("C27-c", "%s#BatchPromote#who" % fkey(root), strip_generics(root).endswith("LeaderState::safe_batch_promote"),
-                  "built in LeaderState::safe_batch_promote", "BatchPromote is built outside LeaderState::safe_batch_promote", loc(b, bi))
-    for (callee, allowed) in (("safe_batch_promote", "handle_promote_ready_learners"), ("enqueue_and_notify_promotions", "check_learner_progress")):
-        cs = [x for x in F.callers_of(lambda k: strip_generics(k).endswith("LeaderState::" + callee)) if F.bodies[x[1]].crate == "d_engine_core"]
-        ctx.floor("C27-c", len(cs), 1, "callers of %s" % callee)
-        for (root, bid, bi, t) in cs:
-            ctx.check("C27-c", "%s#%s#who" % (fkey(root), callee), strip_generics(root).endswith("::" + allowed),
-                      "called from %s" % allowed, "%s is called from %s (only %s may)" % (callee, fkey(root), allowed), loc(F.bodies[bid], bi))
-    # the queue is extended (push_back) only from ids that came out of find_promotable_learners
+        s = origin_slice(F, b, st["rv"]["ops"][0], 3)
+        ok = s.has_call(r"LeaderState::drain_batch$") or s.has_field("LeaderState", "pending_promotions")
+        ctx.check("C27-c", "%s#Change::%s#ids-from-queue" % (fkey(root), st["rv"]["v"]), ok,
+                  "promoted ids come out of LeaderState.pending_promotions (drain_batch)",
+                  "a promotion entry is proposed for node ids that do not come from the pending_promotions queue (ids that never passed find_promotable_learners become voters): %s"
+                  % sorted(x[1] for x in s.sources if x[0] == "call")[:6], loc(b, bi))
+    # the queue is extended only with ids that came out of find_promotable_learners (or are put back after a failed proposal)
     pushes = []
     for bid, b in F.bodies.items():
         if b.crate != "d_engine_core":
@@ -133,26 +119,16 @@ def run(ctx):
     for (b, bi, t) in pushes:
         root = F.root_of[b.id]
         nm = strip_generics(callee_key(t)).split("::")[-1]
-        ok = strip_generics(root).endswith("::enqueue_and_notify_promotions") or \
-            (strip_generics(root).endswith("::handle_promote_ready_learners") and XSlice(F, b).operand(t["args"][1]).has_call(r"LeaderState::drain_batch$"))
+        s = origin_slice(F, b, t["args"][1], 3, through_calls=True)
+        ok = s.has_call(r"LeaderState::find_promotable_learners$") or s.has_call(r"LeaderState::drain_batch$")
         ctx.check("C27-c", "%s#pending_promotions.%s" % (fkey(root), nm), ok,
-                  "queue fed by enqueue_and_notify_promotions / restored from drain_batch",
-                  "LeaderState.pending_promotions is extended outside enqueue_and_notify_promotions (ids that never passed find_promotable_learners can be promoted)", loc(b, bi))
-    clp = ctx.anchor(F.method, "LeaderState", "check_learner_progress")
-    if clp:
-        mb = F.main_body(clp)
-        for (bi, t) in calls_matching(mb, r"LeaderState::enqueue_and_notify_promotions$"):
-            s = Slice(F, mb, through_calls=True).operand(t["args"][1])
-            ctx.check("C27-c", "%s#enqueue-arg" % fkey(clp), s.has_call(r"LeaderState::find_promotable_learners$"),
-                      "enqueued ids derive from find_promotable_learners", "ids enqueued for promotion do not derive from find_promotable_learners: %s" % sorted(x[1] for x in s.sources if x[0] == "call")[:5], loc(mb, bi))
+                  "queued id derives from find_promotable_learners (or is restored from drain_batch)",
+                  "LeaderState.pending_promotions receives an id that does not derive from find_promotable_learners: a learner that is not caught up / not Promotable can be promoted: %s"
+                  % sorted(x[1] for x in s.sources if x[0] == "call")[:6], loc(b, bi))
     fpl = ctx.anchor(F.method, "LeaderState", "find_promotable_learners")
     if fpl:
         mb = F.main_body(fpl)
         conds = edge_conditions(mb)
-        rets = set()
-        for x in mb.exits():
-            pass
-        # the returned vector: pushes whose receiver is the local that flows to _0
         ret_locals = Slice(F, mb).place({"l": 0}).seen
         pushes = [(bi, t) for (bi, t) in calls_matching(mb, r"Vec::push$") if Slice(F, mb).operand(t["args"][0]).seen & ret_locals]
         ctx.floor("C27-c", len(pushes), 1, "push into the returned vector of find_promotable_learners")
@@ -171,62 +147,59 @@ def run(ctx):
         if len(cmps) == 1:
             c = cmps[0]
 
+            def pset(o):
+                return set(x[1] for x in Slice(F, cu).operand(o).sources if x[0] == "param")
+
             def is_gap(o):
                 s = Slice(F, cu).operand(o)
                 subs = [t for (_bi, t) in s.call_sites if re.search(r"saturating_sub$", strip_generics(callee_key(t)))]
-                if len(subs) != 1:
-                    return False
-                a0 = Slice(F, cu).operand(subs[0]["args"][0]).sources
-                a1 = Slice(F, cu).operand(subs[0]["args"][1]).sources
-                return ("param", 3, cu.local_name(3)) in a0 and not any(x[0] == "param" and x[1] != 3 for x in a0) and \
-                    ("param", 2, cu.local_name(2)) in a1 and not any(x[0] == "param" and x[1] != 2 for x in a1)
+                return len(subs) == 1 and pset(subs[0]["args"][0]) == {3} and pset(subs[0]["args"][1]) == {2}
 
             def is_thr(o):
-                return set(x for x in Slice(F, cu).operand(o).sources if x[0] == "param") == {("param", 4, cu.local_name(4))}
+                return pset(o) == {4}
             ok = (c["op"] in ("Le", "Lt") and is_gap(c["a"]) and is_thr(c["b"])) or (c["op"] in ("Ge", "Gt") and is_thr(c["a"]) and is_gap(c["b"]))
             desc = c["op"]
         ctx.check("C27-c", "is_learner_caught_up#normal-form", ok, "caught up == leader_commit -sat match_index <= threshold",
                   "is_learner_caught_up is not `leader_commit.saturating_sub(match_index) <= threshold` (%s): a lagging learner can be promoted" % desc, "%s:%s" % (cu.file, cu.line))
 
     # ---------------------------------------------------------------- C27-d join answered after commit; duplicates rejected
-    sj = [x for x in F.callers_of(lambda k: strip_generics(k).endswith("LeaderState::send_join_success")) if F.bodies[x[1]].crate == "d_engine_core"]
-    ctx.floor("C27-d", len(sj), 1, "callers of send_join_success")
-    for (root, bid, bi, t) in sj:
-        b = F.bodies[bid]
-        who = strip_generics(root).endswith("LeaderState::drain_commit_actions")
-        ctx.check("C27-d", "%s#send_join_success#who" % fkey(root), who, "called from drain_commit_actions",
-                  "send_join_success is called from %s: the joining node is told `success` before its AddNode entry committed" % fkey(root), loc(b, bi))
-        if who:
-            ok, wit, _ = guarded_by(b, bi, lambda c: c.kind == "discr" and c.variants == {"NodeJoin"})
-            ctx.check("C27-d", "%s#send_join_success#arm" % fkey(root), ok, "inside the PostCommitAction::NodeJoin arm",
-                      "send_join_success reachable outside the NodeJoin arm", loc(b, bi), wit and bpath(b, wit))
+    jr = all_agg_sites(F, "cluster::JoinResponse", None, crates=("d_engine_core", "d_engine_server"))
+    jr_ok = [x for x in jr if not (agg_field(x[3], "success") or {}).get("v") == "false"]
+    ctx.floor("C27-d", len(jr_ok), 1, "JoinResponse constructions whose success is not const false")
+    for (b, bi, si, st) in jr_ok:
+        root = F.root_of[b.id]
+
+        def gate(croot, cb, cbi, t):
+            if not strip_generics(croot).endswith("LeaderState::drain_commit_actions"):
+                return False
+            return guarded_by(cb, cbi, lambda c: c.kind == "discr" and c.variants == {"NodeJoin"})[0]
+        ok, chain, gates = only_via(F, root, gate, 4)
+        ctx.check("C27-d", "%s#JoinResponse.success#after-commit" % fkey(root), ok and bool(gates),
+                  "a successful JoinResponse is built only below the PostCommitAction::NodeJoin arm of drain_commit_actions",
+                  "a JoinResponse with success != false can be produced on a call chain that does not pass the NodeJoin arm of drain_commit_actions (%s): "
+                  "the joining node is told it was added before its AddNode entry committed" % [fkey(x) for x in (chain or [])], loc(b, bi))
     dca = ctx.anchor(F.method, "LeaderState", "drain_commit_actions")
     if dca:
         mb = F.main_body(dca)
         so = field_receiver_calls(F, mb, "LeaderState", "pending_commit_actions", r"BTreeMap::split_off$")
         ctx.floor("C27-d", len(so), 1, "pending_commit_actions.split_off in drain_commit_actions")
         for (bi, t) in so:
-            s = Slice(F, mb).operand(t["args"][1])
-            ctx.check("C27-d", "%s#split_off-key" % fkey(dca), s.has_param("new_commit") or any(x[0] == "param" and x[1] == 2 for x in s.sources) and "1" in s.consts(),
-                      "entries kept for later are those above new_commit (+1)", "split point of pending_commit_actions does not derive from new_commit + 1: %s" % sorted(s.sources)[:6], loc(mb, bi))
-    jr = all_agg_sites(F, "cluster::JoinResponse", None, crates=("d_engine_core", "d_engine_server"))
-    ctx.floor("C27-d", len(jr), 1, "JoinResponse constructions")
-    for (b, bi, si, st) in jr:
-        root = F.root_of[b.id]
-        o = agg_field(st, "success")
-        ctx.check("C27-d", "%s#JoinResponse.success" % fkey(root), (o is not None and o.get("v") == "false") or strip_generics(root).endswith("LeaderState::send_join_success"),
-                  "success=true only in send_join_success", "JoinResponse with non-false `success` built outside send_join_success", loc(b, bi))
+            s = XSlice(F, mb).operand(t["args"][1])
+            ctx.check("C27-d", "%s#split_off-key" % fkey(dca), any(x[0] == "rparam" and x[2] == 2 for x in s.sources) and "1" in s.consts(),
+                      "entries kept for later are those above new_commit (+1)", "split point of pending_commit_actions does not derive from new_commit + 1: %s" % sorted(s.sources, key=str)[:6], loc(mb, bi))
     hj = ctx.anchor(F.method, "LeaderState", "handle_join_cluster")
     if hj:
         mb = F.main_body(hj)
         conds = edge_conditions(mb)
-        props = calls_matching(mb, r"LeaderState::execute_request_immediately$") + [(bi, None) for (bi, si, st) in agg_sites(mb, "AddNode")]
-        ctx.floor("C27-d", len(props), 2, "AddNode construction + proposal in handle_join_cluster")
-        for n, (bi, t) in enumerate(props):
+        props = [(bi, "AddNode") for (bi, si, st) in agg_sites(mb, "AddNode")]
+        ctx.floor("C27-d", len(props), 1, "AddNode construction in handle_join_cluster")
+        for (bi, nm) in props:
             ok, wit, _ = guarded_by(mb, bi, lambda c: c.truth is False and cond_calls(F, c, r"Membership::contains_node$"), conds)
-            ctx.check("C27-d", "%s#%s#not-member" % (fkey(hj), "propose" if t else "AddNode"), ok, "only when contains_node(node_id) is false",
-                      "handle_join_cluster can propose AddNode for a node that is already a member (an Active voter re-joining is reset to learner status)", loc(mb, bi), wit and bpath(mb, wit))
-        for (bi, t) in calls_matching(mb, r"Membership::contains_node$"):
+            ctx.check("C27-d", "%s#%s#not-member" % (fkey(hj), nm), ok, "only when contains_node(node_id) is false",
+                      "handle_join_cluster can propose AddNode for a node that is already a member (an Active voter that re-joins is overwritten with the joining status)", loc(mb, bi), wit and bpath(mb, wit))
+        cn = calls_matching(mb, r"Membership::contains_node$")
+        ctx.floor("C27-d", len(cn), 1, "contains_node in handle_join_cluster")
+        for (bi, t) in cn:
             s = Slice(F, mb).operand(t["args"][1])
             ctx.check("C27-d", "%s#contains_node-arg" % fkey(hj), s.has_field("JoinRequest", "node_id"), "membership test is on the requested node id",
                       "contains_node is not asked about JoinRequest.node_id", loc(mb, bi))
@@ -237,14 +210,8 @@ def run(ctx):
     ctx.floor("C27-e", len(bf), 1, "BecomeFollower built by LearnerState")
     for (b, bi, st) in bf:
         root = F.root_of[b.id]
-        conds = edge_conditions(b)
 
         def promoted(c):
-            rel = cmp_rel(F, c, lambda s: s.has_field("NodeMeta", "role") and s.has_call(r"Membership::retrieve_node_meta$"),
-                          lambda s: XSlice(F, b).has_cname(LEARNER_CONST) or "4" in s.consts())
-            return rel == "!="
-
-        def promoted2(c):
             if c.kind != "cmp" or c.truth is None:
                 return False
             sa, sb = XSlice(F, b).operand(c.a), XSlice(F, b).operand(c.b)
@@ -253,7 +220,7 @@ def run(ctx):
                 if x.has_field("NodeMeta", "role") and x.has_call(r"Membership::retrieve_node_meta$") and y.has_cname(LEARNER_CONST):
                     return op == "Ne"
             return False
-        ok, wit, _ = guarded_by(b, bi, promoted2, conds)
-        ctx.check("C27-e", "%s#BecomeFollower" % fkey(root), ok and strip_generics(root).endswith("::handle_membership_applied"),
-                  "learner turns follower only in handle_membership_applied under retrieve_node_meta(self).role != Learner",
-                  "a learner can send BecomeFollower (and so vote / campaign) without its applied membership role being != Learner", loc(b, bi), wit and bpath(b, wit))
+        ok, wit, _ = guarded_by(b, bi, promoted)
+        ctx.check("C27-e", "%s#BecomeFollower" % fkey(root), ok,
+                  "learner turns follower only under retrieve_node_meta(self).role != Learner",
+                  "a learner can send BecomeFollower (and then vote / campaign) without its applied membership role being != Learner", loc(b, bi), wit and bpath(b, wit))
